@@ -35,3 +35,8 @@ pub proof fn lemma_eocd_pos_unique(d: Seq<u8>, p1: int, p2: int)
 pub open spec fn lists_every_counted_entry(d: Seq<u8>, n: int) -> bool {
     exists|cde: int| #[trigger] is_eocd_pos(d, cde) && n == dir_count(d, cde)
 }
+// APPNOTE 4.4.1.4: a field of the end record that cannot hold its value is set to all ones and the value is in the ZIP64 record;
+// an end record without any such field describes its directory by itself
+pub open spec fn eocd_saturated(e: Eocd) -> bool {
+    e.disk == 0xFFFF || e.cd_disk == 0xFFFF || e.n_this == 0xFFFF || e.n_total == 0xFFFF || e.cd_size == 0xFFFF_FFFFu32 || e.cd_off == 0xFFFF_FFFFu32
+}
